@@ -422,4 +422,4 @@ def analyse(obs: Obs, prog):
     mm, fn = prog.func("scan", MOD)
     r = ev.eval_fn(fn, mm)
     t = ev.apply(r.ret, [P("f")], module=mm)
-    obs.add({"C12"}, "COMPOSE", "scan/decorator", is_t(t, "ctor") and t[1] == "Scan" and t[2] == (P("f"),) and dict(t[3]).get("length") == P("n"), derived=t, expected="Scan(f, length=n)", where=f"{mm.rel}:{fn.lineno}")
+    obs.add({"C12"}, "COMPOSE", "scan/decorator", is_t(t, "ctor") and t[1] == "Scan" and ctor_fields(prog, t, "Scan", "scan decorator").get("kernel_gen_fn", t[2][0] if t[2] else None) == P("f") and ctor_fields(prog, t, "Scan", "scan decorator").get("length") == P("n"), derived=t, expected="Scan(f, length=n)", where=f"{mm.rel}:{fn.lineno}")
